@@ -1004,6 +1004,7 @@ int PrimMain(const std::map<std::string, std::string> &a, const std::string &cmd
     po.budget_s = atof(get("budget", "0").c_str());
     po.log_dir = log_dir;
     po.hashlog = hashlog;
+    po.permute = po.budget_s > 0;
     PoolResult pr = RunPool(po, cb);
     Json sum = Json::Object();
     sum["engine"] = "prim";
